@@ -16,9 +16,8 @@ fn comp(text: &str, val: RNum) -> GridNum {
     GridNum { text: text.to_string(), val, computed: true }
 }
 fn real(text: &str) -> GridNum {
-    // the literal denotes the binary32 nearest to the decimal (via f64, as R7RS readers with
-    // binary32 flonums do; every literal used here is exactly or unambiguously representable)
-    let v = text.parse::<f64>().unwrap() as f32;
+    // the literal denotes the binary32 nearest to the decimal
+    let v = text.parse::<f32>().unwrap();
     lit(text, RNum::Inexact(v))
 }
 
